@@ -296,3 +296,8 @@ func AssignedTo(as *ast.AssignStmt, i int) ast.Expr {
 	}
 	return nil
 }
+
+// IsTestFile reports whether a syntax file is a _test.go file.
+func IsTestFile(fset *token.FileSet, f *ast.File) bool {
+	return strings.HasSuffix(fset.Position(f.Pos()).Filename, "_test.go")
+}
